@@ -219,7 +219,7 @@ let run_history line =
            List.iter (fun (id, bs) ->
                Buffer.add_string b (Printf.sprintf " p%d{%s}" (int_of_nat id)
                                       (String.concat " " (List.map (show_binding live false) bs))))
-             bs
+             (by_id bs)
          | OSkipped -> ()) ops
    with Exit -> ());
   print_endline (Buffer.contents b)
